@@ -1,7 +1,9 @@
 (* C19: decimal rounding, JSON values, the Draft-7 subset used by polliwog/schema.json with its validator,
    and rounded / serialize / validate / deserialize of Polyline and Plane.
-   The model is of the code WITH fixes/C19-empty-polyline-deserialize.diff (reshape(-1, 3)) and
-   fixes/C19-plane-rounded-direction-decimals.diff (direction_decimals passed to the constructor).
+   The model is of the code as repaired by three /repo commits: b58b02b (fixes/C19-empty-polyline-deserialize.diff,
+   reshape(-1, 3)), 981c15b (fixes/C19-plane-rounded-direction-decimals.diff, direction_decimals passed to the
+   constructor) and 2b8d651 (fixes/C19-is-closed-bool.diff: serialize emits bool(is_closed); the model's closedness is a
+   bool and pl_to_json emits JBool).
    Definitions only. *)
 From Coq Require Import ZArith List Bool Arith String.
 From PW Require Import Num Vec NpList Result.
